@@ -23,6 +23,8 @@ ASSUMPTIONS = [
     "equality is on vlib.snapshot's public-attribute snapshot with its documented normalisations",
     "x, y, layer and visualization are not part of stand-alone synth files (documented) and are excluded from the synth-context comparison",
 ]
+# classes of cases that are produced deterministically: their absence is a harness error (see vlib.harness)
+HARD_LABELS = ['empty_synth', 'empty_effect_then_completed']
 REQUIRED_LABELS = {
     "quick": ["neg_min_ctl_at_min", "ctl_at_range_end", "dependent_ctl_set", "payload_nondefault", "options_set", "cmid_set", "empty_synth", "second_generation", "earlier_copy_edited_then_copied_again", "metamodule_nested_2_levels", "empty_effect_then_completed"],
     "thorough": ["neg_min_ctl_at_min", "ctl_at_range_end", "dependent_ctl_set", "unit_changed", "payload_nondefault", "options_set", "cmid_set", "empty_synth", "sampler_with_samples", "sampler_with_effect", "metamodule_user_ctls", "name_straddles_32"]
